@@ -455,6 +455,11 @@ class MonC03(object):
                     if t not in alist or sum(1 for x in alist[t] if x is r) != sum(1 for x in tasks if x is t):
                         tr.violate("C03", "C03/%s-lists-disagree" % res_kind,
                                    "%s: %s %s lists task %s but the task does not list it (equally often)" % (phase, res_kind, r.ID, t.ID), res=r, task=t)
+                if phase == "updated" and rstate[r] == WORKING and not tasks:
+                    # after the update of a step (finished tasks have just released their resources) the absence of
+                    # THIS step is not applied yet, so only one direction can be demanded here: WORKING => holds a task
+                    tr.violate("C03", "C03/%s-working-without-task" % res_kind,
+                               "updated step %d: %s %s is WORKING but holds no task" % (snap.step, res_kind, r.ID), res=r)
                 if phase in ("allocated", "recorded"):
                     absent = snap.absent_step or (snap.step in r.absence_time_list)
                     should = (len(tasks) > 0) and not absent
@@ -480,7 +485,13 @@ class MonC03(object):
                 tr.counters["C03.contention_steps"] += 1
 
     def on_end(self, tr, project):
-        """Offline cross-check of the ID logs."""
+        """Live state as simulate() leaves it, then the offline cross-check of the ID logs."""
+        for res_kind, rs, WORKING in (("worker", all_workers(project), WS.WORKING), ("facility", all_facilities(project), FSs.WORKING)):
+            for r in rs:
+                tr.counters["C03.final_state_checks"] += 1
+                if r.state == WORKING and not r.assigned_task_list:
+                    tr.violate("C03", "C03/%s-working-without-task" % res_kind,
+                               "after the run: %s %s is WORKING but holds no task" % (res_kind, r.ID), res=r)
         tasks = project.workflow.task_list
         n = min([len(t.state_record_list) for t in tasks] or [0])
         for kind, resources, rec_attr in (("worker", all_workers(project), "allocated_worker_id_record"),
